@@ -13,6 +13,7 @@ import (
 
 	"github.com/btcsuite/btcd/blockchain"
 	"github.com/btcsuite/btcd/btcutil/v2"
+	"github.com/btcsuite/btcd/chainhash/v2"
 	"github.com/btcsuite/btcd/database"
 	"github.com/btcsuite/btcd/wire/v2"
 )
@@ -104,10 +105,13 @@ func childWorkload(plan *crashkit.Plan) int {
 	for i, op := range w.Ops {
 		rec.Op("B %d %s %d", i, op.Kind, op.Block)
 		err := doOp(n, blocks, op)
+		// the acknowledgement carries this process's own tip: equal-work ties may legitimately be resolved
+		// differently from the reference run (candidate order after an invalidation is map order)
+		tip := n.Chain.BestSnapshot().Hash
 		if err != nil {
-			rec.Op("A %d err", i)
+			rec.Op("A %d err %s", i, tip)
 		} else {
-			rec.Op("A %d ok", i)
+			rec.Op("A %d ok %s", i, tip)
 		}
 	}
 	rec.Op("CLOSE")
@@ -176,6 +180,23 @@ func childRecover(plan *crashkit.Plan) int {
 	prev := tree.Genesis
 	for i := 0; i < upto && i < len(w.TipAfter); i++ {
 		cur := tipOf(w.TipAfter[i])
+		if i < len(w.ChildTips) && w.ChildTips[i] != "" {
+			// what the crashed process itself reported after this operation
+			if h, err := chainhash.NewHashFromStr(w.ChildTips[i]); err == nil && tree.ByHash[*h] != nil {
+				cur = tree.ByHash[*h]
+			}
+		} else if i >= len(w.ChildTips) {
+			// the interrupted operation: besides the reference run's result, every valid delivered block with the
+			// same work is a possible destination (tie)
+			for _, b := range tree.All {
+				if b != cur && b.ChainValid() && b.CumWork.Cmp(cur.CumWork) == 0 {
+					f := refchain.Fork(prev, b)
+					for x := b; x != nil && x != f; x = x.Parent {
+						allowed[x] = true
+					}
+				}
+			}
+		}
 		// a reorganisation passes through every block between the old tip, the fork point and the new tip
 		f := refchain.Fork(prev, cur)
 		for x := prev; x != nil && x != f; x = x.Parent {
